@@ -250,6 +250,9 @@ class AwaitFlow:
             if not argnames and not recvnames:
                 return
             res = e.x.get("callee")
+            evs_ = p.events
+            if e.idx + 1 < len(evs_) and evs_[e.idx + 1].kind == "enter":
+                return  # the callee was inlined: its body (with this value substituted) is analysed instead
             if ftxt in ("isawaitable", "inspect.isawaitable", "asyncio.iscoroutine", "iscoroutine", "inspect.iscoroutine"):
                 for n in argnames:
                     guards[f"$c{e.idx}"] = n
